@@ -156,7 +156,15 @@ def project(log):
 
 def validate(lg, params):
     lines, src = project(lg)
-    rej, trans, drc = t3.run_driver("ktableconc", lines)
+    import time
+    for attempt in range(60):
+        try:
+            rej, trans, drc = t3.run_driver("ktableconc", lines)
+            break
+        except FileNotFoundError:       # the shared `driver` binary is being relinked by somebody
+            time.sleep(2)
+    else:
+        rej, trans, drc = t3.run_driver("ktableconc", lines)
     rejects = []
     if rej or drc != 0:
         idx = int(rej.split()[1]) + 1 if rej else 0
